@@ -241,7 +241,8 @@ CHECKS = {
              "independent augmenting-path maximum matching (Koenig); Hypothesis-generated random graphs up to 40x40 in eleven styles; "
              "generated term tables: Mpo.bond_dims at every cut equals the minimum vertex cover of the harness-built prefix/suffix "
              "incidence graph and never exceeds the number of distinct prefixes/suffixes; a spy applies the cover test to every graph "
-             "the builder submits.",
+             "the builder submits; three-site operators with more than 65 536 distinct partial terms at a cut (bond_dims == minimum "
+             "cover, todense() == the element-wise reference).",
         design_ref="DESIGN.md §4 C20",
         note="Trusted: harness bit-mask minimum cover and BFS matching (cross-validated on every enumerated graph). The finite part is exhaustive.",
         technique="exhaustive enumeration + property-based testing (Hypothesis) + coverage-guided fuzzing (atheris/libFuzzer) against an independent matching/cover oracle (Koenig's theorem)",
